@@ -29,6 +29,18 @@ Probe(m) ==
     [] m = "RoundHalfUp"   -> <<3, -3, 0, 0, 4, 3, 7, 3, 1, 2, 0, 0, 0, 0>>
     [] m = "RoundUp"       -> <<3, -3, 1, -1, 4, 3, 7, 3, 1, 2, 0, 1, -1, -1>>
 
+\* the table above is not free-standing: every entry is the oracle's rounding function (FpDec!RoundQ) applied to the exact
+\* rational of that probe element, scaled to the requested digit - checked once per TLC run (ASSUME)
+R == INSTANCE NatInt
+FD == INSTANCE FpDec WITH ZAdd <- R!IAdd, ZSub <- R!ISub, ZMul <- R!IMul, ZCmp <- R!ICmp, ZFloorDivMod <- R!IFloorDivMod, ZLit <- R!ILit,
+        ZNeg <- R!INeg, ZAbs <- R!IAbs, ZSign <- R!ISign, ZIsEven <- R!IIsEven, ZMod5Is0 <- R!IMod5Is0, ZPow10 <- R!IPow10, ZPow2 <- R!IPow2,
+        ZDigits <- R!IDigits, MaxFrac <- 2, CoeffBits <- 7, CoeffMax <- 127, CoeffMin <- -128, MaxDigits <- 3
+ProbeDerived(m) == LET q(n, d) == FD!RoundQ(n, d, m) IN
+  <<q(25, 10), q(-25, 10), q(1, 3), q(-1, 3), q(350, 100), q(25, 10), q(65, 10), q(27, 10), q(1, 2), q(3, 2), 0,
+    q(4, 30), q(-5, 70), q(-4, 100)>>
+ASSUME \A m \in {"Round05Up", "RoundCeiling", "RoundDown", "RoundFloor", "RoundHalfDown", "RoundHalfEven", "RoundHalfUp", "RoundUp"} :
+         Probe(m) = ProbeDerived(m)
+
 Eff(t) == IF Variant = "global" THEN gmode ELSE mode[t]
 Init == alive = {Main} /\ mode = [t \in Threads |-> "RoundHalfEven"] /\ hist = <<>> /\ gmode = "RoundHalfEven"
 Spawn(p, t) == /\ p \in alive /\ t \notin alive /\ alive' = alive \cup {t}
